@@ -268,6 +268,9 @@ func optSpellings(t *vtype, v string) [][]string {
 
 func runValues(c *Ctx) {
 	idx := 0
+	if c.Shard == 0 && c.Begin("values-shared") {
+		sharedCases(c)
+	}
 	for _, t := range vtypes {
 		for _, asOpt := range []bool{true, false} {
 			for nz := 0; nz < 2; nz++ {
@@ -325,6 +328,12 @@ func runValues(c *Ctx) {
 }
 
 func replayValues(c *Ctx, cs Case) {
+	if sh, _ := cs["shared"].(bool); sh {
+		swap, _ := cs["swap"].(bool)
+		nested, _ := cs["nested"].(bool)
+		sharedCase(c, cInt(cs, "kind"), cInt(cs, "layout"), cInt(cs, "mask"), swap, nested)
+		return
+	}
 	for _, t := range vtypes {
 		if t.name == cStr(cs, "type") {
 			opt, _ := cs["opt"].(bool)
